@@ -209,8 +209,10 @@ static void c14_body()
         if (vrt::want_sample("all_groups") && i == 0x4d61) vrt::sample("all_groups", sfmt("bytes %02x %02x + every third byte 00..ff in one 768-byte input; tails %s", unsigned(i >> 8), unsigned(i & 255), show(t2).c_str()));
     });
     // single groups alone (short result strings living in the object)
-    vrt::phase("single_groups", vrt::tier_count(1 << 18, 1 << 24), [&](uint64_t i, Rng &r) {
-        uint32_t g = vrt::thorough() ? static_cast<uint32_t>(i) : static_cast<uint32_t>(r.below(1 << 24));
+    // (all 2^24 of them in both tiers: the last group of an input goes through the decoders' padding logic, and a slip there
+    // can hinge on one particular group - e.g. one whose encoding ends in "999")
+    vrt::phase("single_groups", 1 << 24, [&](uint64_t i, Rng &) {
+        uint32_t g = static_cast<uint32_t>(i);
         S d;
         d += static_cast<char>(g >> 16); d += static_cast<char>(g >> 8); d += static_cast<char>(g);
         roundtrip(d);
